@@ -42,6 +42,11 @@ type PPtr struct {
 }
 type PTop struct{ Why string }
 
+// PArray is an array object whose elements live in abstract cells (so that slices of it share them).
+type PArray struct{ Elems []*PObj }
+
+func (v PArray) pstr() string { return PSlice{v.Elems}.pstr() }
+
 // PSlice is a slice of known length whose elements live in abstract cells.
 type PSlice struct{ Elems []*PObj }
 
@@ -141,6 +146,14 @@ func pzero(t types.Type) PVal {
 			fs[i] = pzero(u.Field(i).Type())
 		}
 		return PStruct{t, fs}
+	case *types.Array:
+		if u.Len() <= 64 {
+			es := make([]*PObj, u.Len())
+			for i := range es {
+				es[i] = &PObj{pzero(u.Elem())}
+			}
+			return PArray{es}
+		}
 	case *types.Basic:
 		switch {
 		case u.Info()&types.IsBoolean != 0:
@@ -381,8 +394,25 @@ func (pe *PEval) run(fn *ssa.Function, args []PVal, bindings []PVal) PResult {
 				}
 				env[x] = PClosure{x.Fn.(*ssa.Function), bs}
 			case *ssa.Slice:
+				if p, ok := get(x.X).(PPtr); ok && len(p.Path) == 0 && x.Low == nil && x.High == nil {
+					if arr, ok := p.Obj.Val.(PArray); ok {
+						env[x] = PSlice{arr.Elems}
+						continue
+					}
+				}
 				env[x] = PTerm{"slice", []PVal{get(x.X), pOrNil(x.Low, get), pOrNil(x.High, get)}}
 			case *ssa.IndexAddr:
+				if p, ok := get(x.X).(PPtr); ok && len(p.Path) == 0 {
+					if arr, ok := p.Obj.Val.(PArray); ok {
+						if i, ok := get(x.Index).(PConst); ok && i.V != nil {
+							n, _ := constant.Int64Val(i.V)
+							if int(n) < len(arr.Elems) {
+								env[x] = PPtr{arr.Elems[n], nil}
+								continue
+							}
+						}
+					}
+				}
 				if sl, ok := get(x.X).(PSlice); ok {
 					if i, ok := get(x.Index).(PConst); ok && i.V != nil {
 						n, _ := constant.Int64Val(i.V)
